@@ -348,6 +348,11 @@ class Env(object):
                 call['args_identical'] = len(exp[0]) == len(args) and all(a is b for a, b in zip(exp[0], args)) and \
                     set(exp[1]) == set(kwargs) and all(kwargs[k] is exp[1][k] for k in kwargs)
         fault = call.get('fault') if not nested_inside else None
+        if fault in ('disable_in_body', 'disable_in_body_handler_raises') and self.recorder is not None:
+            # recording is switched off (kill switch, another thread) while this interception is inside its body
+            self.run.fault('disable_in_body')
+            self.disabled_in_body = True
+            self.recorder.disable_recording()
         if fault in ('discard_in_body', 'force_in_body') and self.recorder is not None:
             self.run.fault(fault)
             if fault == 'discard_in_body':
@@ -412,6 +417,11 @@ class Env(object):
             call['args_identical'] = len(exp[0]) == len(args) and all(a is b for a, b in zip(exp[0], args)) and \
                 set(exp[1]) == set(kwargs) and all(kwargs[k] is exp[1][k] for k in kwargs)
         fault = call.get('fault')
+        if fault in ('disable_in_body', 'disable_in_body_handler_raises') and self.recorder is not None:
+            # recording is switched off (kill switch, another thread) while this interception is inside its body
+            self.run.fault('disable_in_body')
+            self.disabled_in_body = True
+            self.recorder.disable_recording()
         if fault in ('discard_in_body', 'force_in_body') and self.recorder is not None:
             self.run.fault(fault)
             if fault == 'discard_in_body':
@@ -438,7 +448,7 @@ class RevInputHandler(InputInterceptionDataHandler):
 
     def prepare_input_for_recording(self, interception_key, result, args, kwargs):
         call = self.env.cur() or {}
-        if call.get('fault') == 'handler_raises':
+        if call.get('fault') in ('handler_raises', 'disable_in_body_handler_raises'):
             self.env.run.fault('handler_raises')
             raise RuntimeError('injected: input handler fails')
         return {'wrapped': result, 'nargs': len(args)}
@@ -454,7 +464,7 @@ class OutHandler(OutputInterceptionDataHandler):
 
     def prepare_output_for_recording(self, interception_key, args, kwargs):
         call = self.env.cur() or {}
-        if call.get('fault') == 'handler_raises':
+        if call.get('fault') in ('handler_raises', 'disable_in_body_handler_raises'):
             self.env.run.fault('handler_raises')
             raise RuntimeError('injected: output handler fails')
         return {'hargs': list(args), 'hkwargs': kwargs}
@@ -490,6 +500,8 @@ class Service(object):
         self.overrides = overrides or {}    # alias -> dict of decorator keyword overrides (for edited programs)
         self.token = 0
         self.checks = []         # per-call observations for the transparency oracle
+        self.disabled_at = None  # number of interception calls begun when recording was switched off mid-operation
+        self.calls_begun = 0
         self.threads = []        # (name, thread object, obs list)
         self.extractor_calls = 0
         self.mut_tape = None
@@ -723,6 +735,9 @@ class Interp(object):
                 if rec is not None:
                     rec.discard_recording()
             elif k == 'disable':
+                env.run.fault('disable')
+                if svc.disabled_at is None:
+                    svc.disabled_at = svc.calls_begun
                 if rec is not None:
                     rec.disable_recording()
             elif k == 'force':
@@ -771,6 +786,9 @@ class Interp(object):
 
     def do_in(self, st, obs, tname):
         svc, env = self.svc, self.env
+        if getattr(env, 'disabled_in_body', False) and svc.disabled_at is None:
+            svc.disabled_at = svc.calls_begun
+        svc.calls_begun += 1
         ispec = svc.spec.inputs[st[1]]
         args, kwargs = ispec.pool[st[2] % len(ispec.pool)]
         dep = self.deps[st[3] % 2]
@@ -822,6 +840,9 @@ class Interp(object):
 
     def do_out(self, st, obs, tname):
         svc, env = self.svc, self.env
+        if getattr(env, 'disabled_in_body', False) and svc.disabled_at is None:
+            svc.disabled_at = svc.calls_begun
+        svc.calls_begun += 1
         ospec = svc.spec.outputs[st[1]]
         args, kwargs = st[2]
         args = tuple(args)
@@ -1141,7 +1162,7 @@ def place_fault(spec, st, kind, run):
         lst.insert(n, {'discard_before': ['discard'], 'force_before': ['force'], 'raise_before': ['raise', D.ErrB],
                        'interrupt_before': ['interrupt']}[kind])
         return kind
-    if kind == 'handler_raises':
+    if kind in ('handler_raises', 'disable_in_body_handler_raises'):
         (spec.inputs if st[0] == 'in' else spec.outputs)[st[1]].handler = True
     if kind == 'resolver_raises':
         ispec = spec.inputs[st[1]]
